@@ -20,7 +20,7 @@ EXTENDS Naturals, Sequences, FiniteSets, TLC
 CONSTANTS Labels,         \* label alphabet (set of symbol sequences) for entries and hosts
           MaxLabels,      \* entries have 1..MaxLabels labels
           MaxHostLabels,  \* hosts have 1..MaxHostLabels labels
-          KnownDefects,   \* subset of {"ABORT"}: named deviations of the code kept in MATCHER
+          KnownDefects,   \* subset of {"ABORT", "ACECASE"}: named deviations of the code kept in MATCHER
           RepEntries, RepHosts, RepCNs,   \* representative typed entries / hosts / CNs (list level)
           MaxSan,         \* SAN lists have 0..MaxSan entries
           FpDepth, FpStride               \* pin perturbation depth, position stride
@@ -78,10 +78,13 @@ TooManyWildcards(dn) == Stars(dn[1]) > 1
 WildcardOutsideLeftmost(dn, h) ==          \* a "*" right of the first label acting as a wildcard
     Len(dn) = Len(h) /\ \E i \in 2..Len(dn) : Stars(dn[i]) > 0 /\ LowerL(dn[i]) # LowerL(h[i])
 WildcardEmptyLabel(dn, h) == dn[1] = <<"*">> /\ h[1] = <<>>
-WildcardInALabel(dn, h) ==                 \* partial wildcard embedded in / covering part of an A-label
-    /\ Stars(dn[1]) > 0 /\ dn[1] # <<"*">>
-    /\ (IsALabel(dn[1]) \/ IsALabel(h[1]))
-    /\ LowerL(dn[1]) # LowerL(h[1])
+\* RFC 6125 6.4.3 (3) speaks of the PRESENTED identifier: a wildcard embedded within an A-label of the entry.
+\* An A-label is recognised by the ACE prefix "xn--" in any capitalisation (RFC 5890 2.3.1, RFC 3490 5).
+\* LATITUDE: a partial wildcard of an ordinary entry label ("*a") covering part of an A-label of the HOST is
+\* not named by the RFC or the statement: Either (the code happens to refuse it for a lower-case prefix).
+WildcardInALabel(dn, h) ==
+    /\ Stars(dn[1]) > 0 /\ dn[1] # <<"*">> /\ IsALabel(dn[1])
+    /\ LowerL(dn[1]) # LowerL(h[1])           \* ... and the star acts as a wildcard
 
 DnsRejectClause(dn, h) ==
     IF ~Liberal(dn, h) THEN "OutsideLiberal"
@@ -100,20 +103,27 @@ DnsClass(dn, h) == IF DnsMustAccept(dn, h) THEN "must" ELSE IF DnsMustReject(dn,
 (* fragment pattern can match a dot, so the host must split into as many      *)
 (* labels as the entry and each label must match its own fragment.            *)
 
+\* D names the deviations of the code from the design the statement asks for that are kept in MATCHER:
+\*   "ACECASE" (D14) the IDN test is str.startswith("xn--"), case-sensitive, so "XN--*" is an ordinary label
+\*   "ABORT"   (D13) CertificateError for a multi-wildcard entry leaves the SAN loop (list level)
 MaxWildcards == 1
-DnsnameMatch(dn, h) ==
+XnTest(l, D) == IF "ACECASE" \in D THEN HasPrefixXN(l) ELSE HasPrefixXN(LowerL(l))
+DnsnameMatchD(dn, h, D) ==
     IF dn = EmptyName THEN "F"                                     \* if not dn: return False
     ELSE LET leftmost == dn[1]
              wildcards == Stars(leftmost) IN
          IF wildcards > MaxWildcards THEN "ERR"                    \* raise CertificateError
          ELSE IF wildcards = 0 THEN (IF LowerN(dn) = LowerN(h) THEN "T" ELSE "F")
          ELSE LET first == IF leftmost = <<"*">> THEN h[1] # <<>>                      \* [^.]+
-                           ELSE IF HasPrefixXN(leftmost) \/ HasPrefixXN(h[1])
+                           ELSE IF XnTest(leftmost, D) \/ XnTest(h[1], D)
                                 THEN LowerL(leftmost) = LowerL(h[1])                   \* re.escape(leftmost)
                                 ELSE Glob(leftmost, h[1])                              \* "*" -> [^.]*
               IN IF /\ Len(dn) = Len(h) /\ first
                     /\ \A i \in 2..Len(dn) : LowerL(dn[i]) = LowerL(h[i])             \* re.escape(frag), IGNORECASE
                  THEN "T" ELSE "F"
+DnsnameMatch(dn, h) == DnsnameMatchD(dn, h, KnownDefects)          \* the code as it is
+\* the input class of D14: the repaired matcher refuses, the case-sensitive prefix test alone explains the match
+AceCase(dn, h) == DnsnameMatchD(dn, h, {}) # "T" /\ DnsnameMatchD(dn, h, {"ACECASE"}) = "T"
 
 -----------------------------------------------------------------------------
 (* Typed entries, hosts, certificates                                         *)
@@ -174,12 +184,11 @@ ListRejectClause(c, h, cnOn, api) ==
     IF \E i \in 1..Len(c.san) : ~EntryMustReject(c.san[i], h, api) THEN "none"
     ELSE IF CnMayCount(c, h, cnOn, api)
          THEN (IF DnsMustReject(c.cn, h.n) THEN "CommonName" \o DnsRejectClause(c.cn, h.n) ELSE "none")
-    ELSE IF c.san # <<>>
-         THEN (IF c.cn # NoCN /\ SansExist(c.san) THEN "CommonNameWhenSansExist"
-               ELSE EntryRejectClause(c.san[1], h, api))
-    ELSE IF c.cn = NoCN THEN "NoIdentity"
-    ELSE IF ~cnOn THEN "CommonNameNotEnabled"
-    ELSE "CommonNameVsIpHost"
+    ELSE IF c.cn # NoCN /\ SansExist(c.san) THEN "CommonNameWhenSansExist"     \* (every entry must be rejected)
+    ELSE IF c.cn # NoCN /\ ~cnOn THEN "CommonNameNotEnabled"
+    ELSE IF c.cn # NoCN THEN "CommonNameVsIpHost"
+    ELSE IF c.san = <<>> THEN "NoIdentity"
+    ELSE EntryRejectClause(c.san[1], h, api)
 ListMustReject(c, h, cnOn, api) == ListRejectClause(c, h, cnOn, api) # "none"
 ListClass(c, h, cnOn, api) == IF ListMustAccept(c, h, cnOn, api) THEN "must"
                               ELSE IF ListMustReject(c, h, cnOn, api) THEN "mustnot" ELSE "either"
@@ -195,24 +204,26 @@ Poisoned(c, h, api) ==
 \* does the code see an IP address?  match_hostname: ipaddress.ip_address after zone stripping;
 \* _match_hostname strips the brackets first when the inside is an IP literal
 SeenAsIP(h, api) == h.k = "ip" /\ (~Bracketed(h) \/ api = "wrap")
-EntryMatch(e, h, api) ==       \* "T" / "F" / "ERR" for one SAN entry inside the loop
+EntryMatchD(e, h, api, D) ==   \* "T" / "F" / "ERR" for one SAN entry inside the loop
     IF e.t = "DNS" THEN (IF SeenAsIP(h, api) THEN "F"                    \* host_ip is None and ...
-                         ELSE DnsnameMatch(e.n, h.n))                    \* incl. the text "[v6]" handed in raw
+                         ELSE DnsnameMatchD(e.n, h.n, D))                \* incl. the text "[v6]" handed in raw
     ELSE IF e.t = "IP" THEN (IF SeenAsIP(h, api) /\ e.a = h.a THEN "T" ELSE "F")   \* packed comparison
     ELSE "F"
-RECURSIVE SanLoop(_, _, _)
-SanLoop(san, h, api) ==
+RECURSIVE SanLoopD(_, _, _, _)
+SanLoopD(san, h, api, D) ==
     IF san = <<>> THEN "F"
-    ELSE LET r == EntryMatch(san[1], h, api) IN
+    ELSE LET r == EntryMatchD(san[1], h, api, D) IN
          IF r = "T" THEN "T"
-         ELSE IF r = "ERR" /\ "ABORT" \in KnownDefects THEN "ERR"
-         ELSE SanLoop(Tail(san), h, api)
-MatcherList(c, h, cnOn, api) ==          \* TRUE = returns, FALSE = CertificateError
-    LET r == SanLoop(c.san, h, api) IN
+         ELSE IF r = "ERR" /\ "ABORT" \in D THEN "ERR"
+         ELSE SanLoopD(Tail(san), h, api, D)
+MatcherListD(c, h, cnOn, api, D) ==      \* TRUE = returns, FALSE = CertificateError
+    LET r == SanLoopD(c.san, h, api, D) IN
     IF r = "T" THEN TRUE
     ELSE IF r = "ERR" THEN FALSE
     ELSE /\ cnOn /\ ~SeenAsIP(h, api) /\ ~SansExist(c.san) /\ c.cn # NoCN
-         /\ DnsnameMatch(c.cn, h.n) = "T"
+         /\ DnsnameMatchD(c.cn, h.n, D) = "T"
+MatcherList(c, h, cnOn, api) == MatcherListD(c, h, cnOn, api, KnownDefects)       \* the code as it is
+ListAceCase(c, h, cnOn, api) == ~MatcherListD(c, h, cnOn, api, {}) /\ MatcherListD(c, h, cnOn, api, {"ACECASE"})
 
 -----------------------------------------------------------------------------
 (* Fingerprints.  A pin is a sequence of symbols; Norm is the normalisation  *)
@@ -266,9 +277,18 @@ PairsNext == Len(st) < MaxLabels /\ \E l \in Labels : st' = Append(st, l)
 PairsSpec == PairsInit /\ [][PairsNext]_vars
 
 PairRefWellDefined == st # <<>> => \A h \in Hosts : ~(DnsMustAccept(st, h) /\ DnsMustReject(st, h))
+\* the code as it is (KnownDefects); the second one is EXPECTED to fail when "ACECASE" is enabled and the
+\* alphabet holds a starred label with a capitalised ACE prefix
 PairMatcherAcceptsStrict == st # <<>> => \A h \in Hosts : DnsMustAccept(st, h) => DnsnameMatch(st, h) = "T"
 PairMatcherRejectsForbidden == st # <<>> => \A h \in Hosts : DnsMustReject(st, h) => DnsnameMatch(st, h) # "T"
 PairErrIffTooMany == st # <<>> => \A h \in Hosts : (DnsnameMatch(st, h) = "ERR") <=> TooManyWildcards(st)
+\* the design the statement asks for (no deviation) satisfies RULES ...
+PairRepairedWithinRules == st # <<>> => \A h \in Hosts :
+    /\ DnsMustAccept(st, h) => DnsnameMatchD(st, h, {}) = "T"
+    /\ DnsMustReject(st, h) => DnsnameMatchD(st, h, {}) # "T"
+\* ... and the code leaves RULES exactly on the recorded input class
+PairDeviatesOnlyAsRecorded == st # <<>> => \A h \in Hosts :
+    (DnsMustReject(st, h) /\ DnsnameMatch(st, h) = "T") => AceCase(st, h)
 
 -----------------------------------------------------------------------------
 (* State machine 2 (ListsSpec): the SAN list is built entry by entry from the *)
@@ -280,22 +300,29 @@ ListsSpec == ListsInit /\ [][ListsNext]_vars
 
 Certs(san) == {[san |-> san, cn |-> c] : c \in RepCNs \cup {NoCN}}
 Apis == {"raw", "wrap"}
-ListRefWellDefined == \A c \in Certs(st), h \in RepHosts, on \in BOOLEAN, api \in Apis :
-    ~(ListMustAccept(c, h, on, api) /\ ListMustReject(c, h, on, api))
-ListRejectsForbidden == \A c \in Certs(st), h \in RepHosts, on \in BOOLEAN, api \in Apis :
-    ListMustReject(c, h, on, api) => ~MatcherList(c, h, on, api)
-ListAcceptsStrict == \A c \in Certs(st), h \in RepHosts, on \in BOOLEAN, api \in Apis :
-    ListMustAccept(c, h, on, api) => MatcherList(c, h, on, api)
-ListAcceptsStrictExceptAbort == \A c \in Certs(st), h \in RepHosts, on \in BOOLEAN, api \in Apis :
-    (ListMustAccept(c, h, on, api) /\ ~MatcherList(c, h, on, api)) => Poisoned(c, h, api)
+Quad == RepHosts \X BOOLEAN \X Apis
+ListRefWellDefined == \A c \in Certs(st), q \in Quad : ~(ListMustAccept(c, q[1], q[2], q[3]) /\ ListMustReject(c, q[1], q[2], q[3]))
+\* the code as it is (KnownDefects): both are EXPECTED to fail when the deviations are enabled
+ListRejectsForbidden == \A c \in Certs(st), q \in Quad :
+    ListMustReject(c, q[1], q[2], q[3]) => ~MatcherList(c, q[1], q[2], q[3])
+ListAcceptsStrict == \A c \in Certs(st), q \in Quad :
+    ListMustAccept(c, q[1], q[2], q[3]) => MatcherList(c, q[1], q[2], q[3])
+\* the design the statement asks for satisfies RULES ...
+ListRepairedWithinRules == \A c \in Certs(st), q \in Quad :
+    /\ ListMustReject(c, q[1], q[2], q[3]) => ~MatcherListD(c, q[1], q[2], q[3], {})
+    /\ ListMustAccept(c, q[1], q[2], q[3]) => MatcherListD(c, q[1], q[2], q[3], {})
+\* ... and the code leaves RULES exactly on the two recorded input classes
+ListDeviatesOnlyAsRecorded == \A c \in Certs(st), q \in Quad :
+    /\ (ListMustAccept(c, q[1], q[2], q[3]) /\ ~MatcherList(c, q[1], q[2], q[3])) => Poisoned(c, q[1], q[3])
+    /\ (ListMustReject(c, q[1], q[2], q[3]) /\ MatcherList(c, q[1], q[2], q[3])) => ListAceCase(c, q[1], q[2], q[3])
 \* commonName has no influence when SANs exist or the switch is off, and never for IP hosts
-ListCommonNameInert == \A c \in Certs(st), h \in RepHosts, on \in BOOLEAN, api \in Apis :
-    (SansExist(c.san) \/ ~on \/ RefKind(h, api) = "ip") =>
-        (MatcherList(c, h, on, api) <=> MatcherList([c EXCEPT !.cn = NoCN], h, on, api))
-\* first match wins irrespective of order, unless the recorded deviation is enabled
-ListOrderIrrelevant == KnownDefects = {} => \A c \in Certs(st), h \in RepHosts, on \in BOOLEAN, api \in Apis :
-    Len(st) >= 2 => (MatcherList(c, h, on, api) <=>
-                     MatcherList([c EXCEPT !.san = Tail(st) \o <<Head(st)>>], h, on, api))
+ListCommonNameInert == \A c \in Certs(st), q \in Quad :
+    (SansExist(c.san) \/ ~q[2] \/ RefKind(q[1], q[3]) = "ip") =>
+        (MatcherList(c, q[1], q[2], q[3]) <=> MatcherList([c EXCEPT !.cn = NoCN], q[1], q[2], q[3]))
+\* in the repaired design the first match wins irrespective of the order of the entries
+ListOrderIrrelevant == \A c \in Certs(st), q \in Quad :
+    Len(st) >= 2 => (MatcherListD(c, q[1], q[2], q[3], {}) <=>
+                     MatcherListD([c EXCEPT !.san = Tail(st) \o <<Head(st)>>], q[1], q[2], q[3], {}))
 
 -----------------------------------------------------------------------------
 (* State machine 3 (FpSpec): pins obtained from a true digest by perturbation *)
